@@ -134,6 +134,28 @@ def gen(rng, tier):
     for _ in range(m):
         s = "".join(rng.pick(SPECIAL + ["true", "null", "0x1f", "1.5", "on", '"a\\"b"', "\\\\", "\\u00e9", "\\x41", "\\101", "\\q"]) for _ in range(1 + rng.below(7)))
         yield {"k": "parse", "s": s, "cfg": rng.pick(cfgs), "_tag": "parse/random"}
+    yield from gen_after_use(rng.fork("after-use"), m // 6)
+
+
+def gen_after_use(rng, n):
+    """parse.Value after other uses of the library in the same process (configs with references and splices read under
+    IgnoreCommas / NoParse-free options, succeeding and failing inside the parser): the result is a function of the text"""
+    bads = ["[${a}", "{${a}", "[${a},", "{k: ${a}", "'${a}", "${a}]"]
+    goods = ["${a},2", "[${a}, 2]", "x${a}", "{k: ${a}}"]
+    for _ in range(n):
+        pre = []
+        for _ in range(1 + rng.below(2)):
+            v = rng.pick(bads) if rng.chance(0.6) else rng.pick(goods)
+            ro = [opt("VarExp")] + ([opt("IgnoreCommas")] if rng.chance(0.7) else [])
+            pre.append({"from": M([("a", S("1")), ("b", S(v))]), "opts": [opt("VarExp")], "name": "b", "ropts": ro})
+        s = rng.pick(["1,2", "a,b", "[1],2", "1, 2, 3", "x", "[1,2]", "{a: 1},{b: 2}", ","])
+        yield {"k": "parse", "s": s, "cfg": None, "pre": pre, "_tag": "parse/after-use"}
+
+
+def oracle(case, impl, model):
+    if isinstance(impl, dict) and "stateChanged" in impl:
+        return (False, "using the library changed package state (%s): what parse.Value returns now depends on earlier calls" % impl["stateChanged"])
+    return None
 
 
 def nontrivial(case, impl):
